@@ -175,6 +175,15 @@ func (fs *FS) queue(w *Watch, mask uint32, cookie uint32, name string) {
 		fs.Coalesced++
 		return
 	}
+	// fs.inotify.max_queued_events: when the queue is full one IN_Q_OVERFLOW
+	// event is queued and further events are lost until the queue is read
+	if max := fs.MaxQueuedEvents; max > 0 && len(q) >= max-1 {
+		if n := len(q); n == 0 || q[n-1].Mask != IN_Q_OVERFLOW {
+			w.in.queue = append(q, RawEvent{Wd: -1, Mask: IN_Q_OVERFLOW})
+		}
+		fs.EventsLost++
+		return
+	}
 	w.in.queue = append(q, ev)
 	fs.EventsQueued++
 }
